@@ -11,6 +11,8 @@ import (
 	"fmt"
 	"os"
 	"path/filepath"
+	"runtime"
+	"sort"
 	"strconv"
 	"strings"
 	"testing"
@@ -81,7 +83,11 @@ func TestVerifC27(t *testing.T) {
 	c.Rule("A case = (snap configuration from an enumerated pool of 108: 3 names x {no key, 2 instance keys} x 6 app sets incl. prefix chains, app==snap, no apps x 2 revisions; " +
 		"installed file name; desktop file content = one of 4 valid templates, possibly without its [Desktop Entry] header or empty, with 0-9 line-wise mutations drawn from " +
 		"34 line operators (Exec / key / locale / header / Icon / ${SNAP} / control-character / encoding / >64KiB-line families), LF/CRLF/CR/LFCR line ends, optional missing final newline). " +
-		"Non-trivial = at least one hostile or malformed operator was applied and the sanitizer still produced output; distinct = different (operator set, instance key?, mode).")
+		"Non-trivial = at least one hostile or malformed operator was applied and the sanitizer still produced output; distinct = different (operator set, instance key?, mode). " +
+		"Multi-file cases: 1-3 snaps with distinct instance names in ONE EnsureSnapDesktopFiles call, the first shipping 2-5 and the others 1-5 desktop files of different lengths from the same generator plus 3 operators " +
+		"that put text which would be dangerous as a line of its own (Exec=/bin/sh..., Icon=/etc/..., headers, TryExec, forged tag) inside allow-listed values at a random shift; every such call is non-trivial, " +
+		"distinct = different (files-per-snap multiset, dangerous text embedded?, a later file shorter than an earlier one?, later length = offset of an embedded dangerous text?, GOMAXPROCS 1?).")
+	c.Assume("Multi-file differential partner: the same real sanitizeDesktopFile called for ONE source with the installed name, result copied to a string before any other call; trusted only as 'what this source sanitizes to on its own' (that output is itself judged by the reader in the single-file phases).")
 	c.Assume("Allowlist of keys/headers: the 22 keys, 4 localizable keys and 3 header forms snapd documents as allowed in wrappers/desktop.go, copied once into literal lists of the reader (plus the X-SnapInstanceName tag snapd adds).")
 	c.Assume("A line is what lies between '\\n' bytes (desktop-entry spec / GKeyFile); a '\\r' or NUL inside a line is part of that line's value.")
 	c.Assume("Wrapper path = <dirs.SnapBinariesDir>/<instance>[.<app>], mount dir = <dirs.SnapMountDir>/<instance>/<rev>; cross-checked once per snap against snap.Info (mismatch = inconclusive).")
@@ -95,6 +101,7 @@ func TestVerifC27(t *testing.T) {
 	}
 	nDirect := kit.Scale(30000, 150000)
 	nE2E := kit.Scale(1500, 6000)
+	nMulti := kit.Scale(700, 2800)
 	only := kit.OnlyCase()
 
 	checkPool := func() {
@@ -113,7 +120,7 @@ func TestVerifC27(t *testing.T) {
 	mountOf := func(s *c27Snap) string { return dirs.SnapMountDir + "/" + s.instance() + "/" + s.revString() }
 
 	samples := 0
-	judge := func(cs *c27Case, mode string, e c27Expect, out string) {
+	judge := func(cs *c27Case, mode string, e c27Expect, out string, extra map[string]interface{}) {
 		c.Eval()
 		fs, seen := c27Read(out, e)
 		c.Count("out_lines", seen.Lines)
@@ -154,6 +161,9 @@ func TestVerifC27(t *testing.T) {
 			sig := "C27:" + f.Clause
 			w := map[string]interface{}{"case_index": cs.Idx, "mode": mode, "snap": cs.Snap, "instance": e.Instance, "mount_dir": e.MountDir, "file": e.File,
 				"own_wrappers": e.Wrappers, "ops": cs.Ops, "input": c27Quote(cs.Content), "output_line_no": f.LineNo, "output_line": c27Quote(f.Line), "clause": f.Clause}
+			for k, v := range extra {
+				w[k] = v
+			}
 			if f.Clause == "icon-outside-snap" {
 				if in, ok := c27GluedInput(cs.Content, f.Line, cs.Snap, e.MountDir); ok {
 					sig = "C27:icon-SNAP-variable-glued-to-name"
@@ -198,7 +208,7 @@ func TestVerifC27(t *testing.T) {
 		if !ok {
 			continue
 		}
-		judge(cs, mode, c27ExpectFor(cs.Snap, file), out)
+		judge(cs, mode, c27ExpectFor(cs.Snap, file), out, nil)
 	}
 
 	// ---- phase B: EnsureSnapDesktopFiles end to end on a scratch root ------------------
@@ -258,9 +268,187 @@ func TestVerifC27(t *testing.T) {
 			continue
 		}
 		c.Count("e2e_files_installed", 1)
-		judge(cs, "ensure", c27ExpectFor(cs.Snap, installed), string(out))
+		judge(cs, "ensure", c27ExpectFor(cs.Snap, installed), string(out), nil)
 	}
+
+	// ---- phase C: snaps shipping several desktop files, 1-3 snaps per call ------------
+	// deriveDesktopFilesContent keeps the sanitized content of all files of a snap
+	// until EnsureDirState has written them; every installed file must be exactly
+	// what sanitizing its own source alone yields, and pass the per-file reader.
+	// All cases run in this one process (so any buffer the sanitizer keeps between
+	// calls is reused); the second half with GOMAXPROCS(1).
+	oldProcs := runtime.GOMAXPROCS(0)
+	defer runtime.GOMAXPROCS(oldProcs)
+	multiSamples := 0
+	for m := 0; m < nMulti; m++ {
+		idx := nDirect + nE2E + m
+		if only >= 0 && idx != only {
+			continue
+		}
+		mc := c27GenMulti(kit.CaseRand("c27multi", idx), pool, mountOf, idx)
+		mc.Procs1 = m >= nMulti/2
+		if mc.Procs1 {
+			runtime.GOMAXPROCS(1)
+		}
+		var infos []*snap.Info
+		var shipErr error
+		for _, ms := range mc.Snaps {
+			infos = append(infos, ms.Snap.info)
+			gui := filepath.Join(mountOf(ms.Snap), "meta", "gui")
+			if err := os.MkdirAll(gui, 0755); err != nil {
+				shipErr = err
+			}
+			for _, f := range ms.Files {
+				if err := os.WriteFile(filepath.Join(gui, f.FileBase+".desktop"), []byte(f.Content), 0644); err != nil {
+					shipErr = err
+				}
+			}
+		}
+		if shipErr != nil {
+			c.Inconclusive("cannot ship desktop files: " + shipErr.Error())
+			return
+		}
+		describe := func(ms *c27MultiSnap) []map[string]string {
+			var fl []map[string]string
+			for _, f := range ms.Files {
+				fl = append(fl, map[string]string{"shipped_as": "meta/gui/" + f.FileBase + ".desktop", "ops": strings.Join(f.Ops, ","), "input": c27Quote(f.Content)})
+			}
+			return fl
+		}
+		var ensureErr error
+		func() {
+			defer func() {
+				if r := recover(); r != nil {
+					ensureErr = fmt.Errorf("panic: %v", r)
+					c.Violation("C27:sanitizer-panic", map[string]interface{}{"case_index": idx, "mode": "multi", "snap": mc.Snaps[0].Snap, "files": describe(mc.Snaps[0]), "panic": fmt.Sprint(r)})
+				}
+			}()
+			ensureErr = EnsureSnapDesktopFiles(infos)
+		}()
+		// read everything back before the sanitizer is called again
+		installedNow := map[string]string{}
+		if ents, err := os.ReadDir(dirs.SnapDesktopFilesDir); err == nil {
+			for _, en := range ents {
+				if b, err := os.ReadFile(filepath.Join(dirs.SnapDesktopFilesDir, en.Name())); err == nil {
+					installedNow[en.Name()] = string(b)
+				}
+			}
+		}
+		os.RemoveAll(dirs.SnapDesktopFilesDir)
+		for _, ms := range mc.Snaps {
+			os.RemoveAll(filepath.Join(dirs.SnapMountDir, ms.Snap.instance()))
+		}
+		c.Count("multi_calls", 1)
+		c.Count(fmt.Sprintf("multi_calls_with_%d_snaps", len(mc.Snaps)), 1)
+		if mc.Procs1 {
+			c.Count("multi_calls_gomaxprocs_1", 1)
+		}
+		if ensureErr != nil {
+			c.Count("multi_not_installed", 1)
+			if c.Violations() == 0 {
+				c.Inconclusive(fmt.Sprintf("case %d: EnsureSnapDesktopFiles err=%v", idx, ensureErr))
+			}
+			continue
+		}
+		var shape []string
+		embedded, laterShorter, spliceAtDanger := false, 0, 0
+		for _, ms := range mc.Snaps {
+			shape = append(shape, strconv.Itoa(len(ms.Files)))
+			c.Count(fmt.Sprintf("multi_snaps_with_%d_files", len(ms.Files)), 1)
+			if ms.Snap.Key != "" {
+				c.Count("multi_snaps_with_instance_key", 1)
+			}
+			// differential partner: each source sanitized alone, in a fresh call, copied at once
+			alone := make([]string, len(ms.Files))
+			names := make([]string, len(ms.Files))
+			okAll := true
+			for i, f := range ms.Files {
+				names[i] = c27DesktopPrefix(ms.Snap) + "_" + f.FileBase + ".desktop"
+				var ok bool
+				alone[i], ok = sanitize(f, ms.Snap.info, filepath.Join(dirs.SnapDesktopFilesDir, names[i]), f.Content)
+				okAll = okAll && ok
+			}
+			if !okAll {
+				continue
+			}
+			files := describe(ms)
+			for i, f := range ms.Files {
+				for _, o := range f.Ops {
+					embedded = embedded || strings.HasPrefix(o, "value-embeds-dangerous-line")
+				}
+				installed := filepath.Join(dirs.SnapDesktopFilesDir, names[i])
+				got, present := installedNow[names[i]]
+				delete(installedNow, names[i])
+				if !present {
+					c.Count("multi_files_missing", 1)
+					if c.Violations() == 0 {
+						c.Inconclusive(fmt.Sprintf("case %d: shipped %s/meta/gui/%s.desktop was not installed as %s", idx, ms.Snap.instance(), f.FileBase, names[i]))
+					}
+					continue
+				}
+				c.Count("multi_files_installed", 1)
+				extra := map[string]interface{}{"gomaxprocs_1": mc.Procs1, "snaps_in_call": len(mc.Snaps), "files_of_snap": files, "file_index_in_glob_order": i}
+				judge(f, "multi", c27ExpectFor(ms.Snap, installed), got, extra)
+				if got != alone[i] {
+					d := 0
+					for d < len(got) && d < len(alone[i]) && got[d] == alone[i][d] {
+						d++
+					}
+					w := map[string]interface{}{"case_index": idx, "mode": "multi", "snap": ms.Snap, "instance": ms.Snap.instance(), "file": installed, "clause": "multi-file:installed-differs-from-own-sanitized-source",
+						"installed": c27Quote(got), "own_source_sanitized_alone": c27Quote(alone[i]), "first_difference_at_byte": d, "input": c27Quote(f.Content)}
+					for k, v := range extra {
+						w[k] = v
+					}
+					for j := range ms.Files {
+						if j != i && len(alone[j]) <= len(alone[i]) && got == alone[j]+alone[i][len(alone[j]):] {
+							w["installed_equals"] = fmt.Sprintf("sanitized(%s) followed by sanitized(%s)[%d:]", ms.Files[j].FileBase+".desktop", f.FileBase+".desktop", len(alone[j]))
+						} else if j != i && got == alone[j] {
+							w["installed_equals"] = fmt.Sprintf("sanitized(%s)", ms.Files[j].FileBase+".desktop")
+						}
+					}
+					c.Count(fmt.Sprintf("multi_installed_differs_gomaxprocs1_%v", mc.Procs1), 1)
+					if w["installed_equals"] != nil {
+						c.Count("multi_installed_differs_as_sibling_head_plus_own_tail", 1)
+					}
+					c.Violation("C27:multi-file:installed-differs-from-own-sanitized-source", w)
+				}
+				// workload power: how often would overwriting the head of an earlier file's
+				// content with a later (shorter) one start a line at an embedded dangerous text
+				for j := i + 1; j < len(ms.Files); j++ {
+					if len(alone[j]) > 0 && len(alone[j]) < len(alone[i]) {
+						laterShorter++
+						if c27StartsDangerous(alone[i][len(alone[j]):]) {
+							spliceAtDanger++
+						}
+					}
+				}
+			}
+		}
+		var extraNames []string
+		for n := range installedNow {
+			extraNames = append(extraNames, n)
+		}
+		if len(extraNames) > 0 {
+			sort.Strings(extraNames)
+			c.Count("multi_unexpected_installed_files", len(extraNames))
+			if c.Violations() == 0 {
+				c.Inconclusive(fmt.Sprintf("case %d: installed files nobody shipped: %v", idx, extraNames))
+			}
+		}
+		c.Count("multi_pairs_later_file_shorter", laterShorter)
+		c.Count("multi_pairs_later_length_is_offset_of_embedded_dangerous_text", spliceAtDanger)
+		sort.Strings(shape)
+		c.Nontrivial(kit.Sig("multi", strings.Join(shape, "+"), embedded, laterShorter > 0, spliceAtDanger > 0, mc.Procs1))
+		if multiSamples++; multiSamples <= 2 {
+			c.Sample(map[string]interface{}{"case_index": idx, "mode": "multi", "gomaxprocs_1": mc.Procs1, "snap": mc.Snaps[0].Snap, "snaps_in_call": len(mc.Snaps), "files_of_first_snap": describe(mc.Snaps[0])})
+		}
+	}
+	runtime.GOMAXPROCS(oldProcs)
 	if only < 0 {
+		c.Floor("multi_files_installed", 1500)
+		c.Floor("multi_pairs_later_file_shorter", 500)
+		c.Floor("multi_calls_gomaxprocs_1", 100)
+		c.Floor("multi_pairs_later_length_is_offset_of_embedded_dangerous_text", 8)
 		c.Floor("out_exec_lines", 1000)
 		c.Floor("out_icon_paths", 500)
 		c.Floor("out_instance_tags", 1000)
